@@ -19,6 +19,21 @@ REPO = os.environ.get('PI2_REPO_SRC', '/repo')
 PARTS = ['generation/src/proof_generation', 'rust/src', 'docs']
 
 
+BASE: dict = {}          # property -> (obligations, declined) on the unchanged tree (filled on demand by --all-props / twins)
+
+
+def baseline(props):
+    import re as _re
+    for pr in props:
+        if pr in BASE:
+            continue
+        q = subprocess.run([os.path.join(HERE, 'check'), pr], capture_output=True, text=True, cwd=HERE,
+                           env=dict(os.environ, PI2_EVIDENCE_DIR=tempfile.mkdtemp(prefix='pi2ev-')))
+        m = _re.search(r'obligations=(\d+) failing=(\d+) known=(\d+) declined=(\d+)', q.stdout)
+        if m:
+            BASE[pr] = (int(m.group(1)), int(m.group(4)))
+
+
 def scratch_copy():
     d = tempfile.mkdtemp(prefix='pi2seed-')
     for part in PARTS:
@@ -57,6 +72,10 @@ def run_seed(name, props_override=None, all_props=False):
         for pr in props:
             q = subprocess.run([os.path.join(HERE, 'check'), pr], capture_output=True, text=True, env=env, cwd=HERE)
             lines = [l for l in q.stdout.splitlines() if 'rule ' in l or l.startswith('ANALYSIS-ERROR')]
+            import re as _re
+            m = _re.search(r'obligations=(\d+) failing=(\d+) known=(\d+) declined=(\d+)', q.stdout)
+            if m and BASE.get(pr) and (int(m.group(1)) < BASE[pr][0] or int(m.group(4)) > BASE[pr][1]):
+                lines.append(f'WEAKER: obligations {BASE[pr][0]} -> {m.group(1)}, declined {BASE[pr][1]} -> {m.group(4)} (fewer facts decided than on the unchanged tree)')
             res[pr] = (q.returncode, lines[:4])
     finally:
         shutil.rmtree(d, ignore_errors=True)
@@ -82,6 +101,10 @@ def main(argv):
     if not names:
         names = sorted(n for n in os.listdir(os.path.join(HERE, 'seeded')) if os.path.exists(os.path.join(HERE, 'seeded', n, 'patch.diff')))
     missed = 0
+    if any(n.startswith('try-twin-') for n in names):
+        allprops = sorted({fn[:-3].upper() for fn in os.listdir(os.path.join(HERE, 'sa', 'rules')) if fn[0] == 'c' and fn[1:-3].isdigit()})
+        with cf.ThreadPoolExecutor(max_workers=jobs) as ex:
+            list(ex.map(lambda pr: baseline([pr]), props or allprops))
     with cf.ThreadPoolExecutor(max_workers=jobs) as ex:
         for name, meta, res in ex.map(lambda n: run_seed(n, props, allp), names):
             caught = [p for p, (rc, _l) in res.items() if rc == 1]
